@@ -434,6 +434,29 @@ func init() {
 						judgeCall(c, model.Arr(cpairs[i].arg), "contains", []model.Value{cpairs[i].recv.A[0]})
 					}
 				}})
+			// empty arrays are structurally equal wherever they come from: a literal, the data (nil or empty
+			// slice), slice()/reverse()/split() results, nested in arrays and objects
+			empties := []string{"[]", "e", "n", "[1].slice(1)", "[1, 2].slice(1, 1)", "[].reverse()", "e.slice(0)", "n.reverse()", "[1, 2, 3].slice(5)", "\"a\".split(\"b\").slice(1)", "[].shuffle()", "e.shuffle()"}
+			secs = append(secs, core.Section{Name: "contains-empty-arrays", Exhaustive: true, N: len(empties) * len(empties),
+				Run: func(c *core.Ctx, i int) {
+					x, y := empties[i/len(empties)], empties[i%len(empties)]
+					for _, tc := range []struct{ src, want string }{
+						{"{{ [" + x + "].contains(" + y + ") }}", "1"},
+						{"{{ [1, " + x + ", \"s\"].contains(" + y + ") }}", "1"},
+						{"{{ [[" + x + "]].contains([" + y + "]) }}", "1"},
+						{"{{ [{a: " + x + ", b: 1}].contains({b: 1, a: " + y + "}) }}", "1"},
+						{"{{ [[1], [" + x + ", 2]].contains([" + y + ", 2]) }}", "1"},
+						{"{{ [" + x + "].contains([" + y + "]) }}", "0"},
+						{"{{ [[1]].contains(" + y + ") }}", "0"},
+					} {
+						c.Input(map[string]any{"source": tc.src})
+						got := evalString(c, tc.src, map[string]any{"e": []int{}, "n": []int(nil)})
+						c.Nontrivial(tc.src)
+						if !got.Panicked && (got.Err != nil || got.Out != tc.want) {
+							c.Violation("contract:array.contains:empty-arrays", fmt.Sprintf("%s gave %s, want %q: contains is structural equality", tc.src, got.Describe(), tc.want), map[string]any{"source": tc.src})
+						}
+					}
+				}})
 			// call sequences: results must not share storage with the receiver or with each other
 			seqs := sharingSequences()
 			secs = append(secs, core.Section{Name: "call-sequences", Exhaustive: true, N: len(seqs),
